@@ -99,20 +99,37 @@ def divisions_of(coll, label=int_label):
     return [label(d) for d in divs]
 
 
+def partitions_of(coll):
+    """Compute every partition separately -> list of pandas objects.  The collection is optimized and
+    LOWERED with its own .optimize() (dask.optimize() does not lower dataframe expressions such as
+    Repartition and fails on them), the graph is executed on the synchronous scheduler and one
+    result per output key is returned."""
+    from dask.local import get_sync
+    opt = coll.optimize()
+    keys = list(opt.__dask_keys__())
+    return list(get_sync(dict(opt.__dask_graph__()), keys))
+
+
 def observe(coll, label=int_label, whole_too=False):
-    """Observation record of a dask dataframe collection: declared npartitions / divisions and the
-    rows of EVERY partition, each computed through its own key (harness.frames.partitions_of).
-    whole_too additionally computes the collection in one go and reports whether the result equals
-    the concatenation of the partitions (`wholeok`)."""
-    from .frames import partitions_of
+    """Observation record of a dask dataframe collection: declared npartitions / divisions (read
+    from the collection as the user sees it) and the rows of EVERY partition, each computed through
+    its own key.  whole_too additionally computes the collection in one go and reports whether the
+    result equals the concatenation of the partitions (`wholeok`)."""
     declared = int(coll.npartitions)
     divs = divisions_of(coll, label)
     ndivs = len(tuple(coll.divisions))
     parts = [rows_of(p, label) for p in partitions_of(coll)]
     obs = {"raised": "", "nparts": declared, "ndivs": ndivs, "divs": divs, "parts": parts, "wholeok": True}
     if whole_too:
-        whole = rows_of(coll.compute(scheduler="sync"), label)
-        obs["wholeok"] = whole == [r for p in parts for r in p]
+        try:
+            whole = rows_of(coll.compute(scheduler="sync"), label)
+            obs["wholeok"] = whole == [r for p in parts for r in p]
+        except Exception as ex:  # noqa: BLE001 - the partitions could be computed, the whole could not
+            from .frames import is_shim_error
+            if is_shim_error(ex) or isinstance(ex, CallTimeout):
+                raise
+            obs["wholeok"] = False
+            obs["wholeraised"] = type(ex).__name__
     return obs
 
 
@@ -126,15 +143,18 @@ class CallTimeout(Exception):
 
 @contextlib.contextmanager
 def time_limit(seconds, mem_gb=8):
-    """Bound the wall time (and the address space) of one call into dask (main thread of the process
-    only; forked pmap workers qualify).  On expiry CallTimeout is raised inside the call; a runaway
+    """Bound one call into dask: `seconds` of CPU time of this process (ITIMER_PROF - insensitive to
+    machine load, so a busy machine cannot produce a spurious timeout), a generous wall-clock bound
+    (30 x seconds, at least 120 s) for calls that block, and the address space.  Main thread only
+    (forked pmap workers qualify).  On expiry CallTimeout is raised inside the call; a runaway
     allocation ends in MemoryError.  Both are then ordinary observations of the driver."""
     import resource
 
     def _handler(signum, frame):
-        raise CallTimeout("no result after %ss" % seconds)
+        raise CallTimeout("no result after %ss of CPU time (or %ss wall)" % (seconds, max(120, 30 * seconds)))
     try:
-        old = signal.signal(signal.SIGALRM, _handler)
+        old_prof = signal.signal(signal.SIGPROF, _handler)
+        old_alrm = signal.signal(signal.SIGALRM, _handler)
     except ValueError:            # not in the main thread: run unbounded
         yield
         return
@@ -147,11 +167,14 @@ def time_limit(seconds, mem_gb=8):
             limited = True
         except (ValueError, OSError):
             pass
-    signal.setitimer(signal.ITIMER_REAL, seconds)
+    signal.setitimer(signal.ITIMER_PROF, seconds)
+    signal.setitimer(signal.ITIMER_REAL, max(120, 30 * seconds))
     try:
         yield
     finally:
+        signal.setitimer(signal.ITIMER_PROF, 0)
         signal.setitimer(signal.ITIMER_REAL, 0)
-        signal.signal(signal.SIGALRM, old)
+        signal.signal(signal.SIGPROF, old_prof)
+        signal.signal(signal.SIGALRM, old_alrm)
         if limited:
             resource.setrlimit(resource.RLIMIT_AS, (soft, hard))
